@@ -102,9 +102,12 @@ Proof.
 Qed.
 
 (* value-level reading of the model: the reference evaluation order with the MODEL's
-   condition test (no well-formedness of prefixes needed) *)
+   condition test for an arbitrary matcher function mm (no well-formedness of prefixes needed) *)
+Section WithMatcher.
+Variable mm : matcher -> prefix -> prefix -> bool.
+
 Definition applies_m (env : penv) (p : prefix) (t : term) (a : path) : bool :=
-  if is_nil (t_from t) then true else any_of (fun f => cond_matches env f p a) (t_from t).
+  if is_nil (t_from t) then true else any_of (fun f => cond_matches_w mm env f p a) (t_from t).
 Definition term_val (env : penv) (p : prefix) (t : term) (a : path) : path * verdict :=
   if applies_m env p t a then seq_ref act_ref (t_then t) a else (a, Continue).
 Definition filter_val (env : penv) (p : prefix) (f : filter) (a : path) : path * verdict :=
@@ -114,9 +117,9 @@ Definition chain_val (env : penv) (c : chain) (p : prefix) (a : path) : path * b
 
 Lemma term_sim L0 env p t st r v :
   nth_error st r = Some v -> path_wfb v = true -> (L0 <= r)%nat ->
-  sim L0 (term_process env t p st r) st (term_val env p t v).
+  sim L0 (term_process_w mm env t p st r) st (term_val env p t v).
 Proof.
-  intros Hn Hw HL. unfold term_process, term_val, applies_m. rewrite Hn.
+  intros Hn Hw HL. unfold term_process_w, term_val, applies_m. rewrite Hn.
   destruct (is_nil (t_from t)); [apply actions_sim; auto |].
   destruct (any_of _ (t_from t)); [apply actions_sim; auto |].
   apply (sim_same L0 st r v Continue); auto.
@@ -124,11 +127,11 @@ Qed.
 
 Lemma filter_sim L0 env p f : forall st r v,
   nth_error st r = Some v -> path_wfb v = true -> (L0 <= r)%nat ->
-  sim L0 (filter_process env f p st r) st (filter_val env p f v).
+  sim L0 (filter_process_w mm env f p st r) st (filter_val env p f v).
 Proof.
   unfold filter_val. induction f as [| t f IH]; intros st r v Hn Hw HL.
   - simpl. apply (sim_same L0 st r v Continue); auto.
-  - cbn [filter_process seq_ref].
+  - cbn [filter_process_w seq_ref].
     destruct (term_sim L0 env p t st r v Hn Hw HL) as [st1 [r1 [E [Hn1 [Hw1 [HL1 Hf1]]]]]].
     rewrite E. cbn [ar_term ar_path ar_reject]. destruct (term_val env p t v) as [v1 vd]. cbn [fst snd] in *.
     destruct vd; cbn [term_of rej_of].
@@ -140,13 +143,13 @@ Qed.
 Lemma chain_loop_sim L0 env p c : forall st r v,
   nth_error st r = Some v -> path_wfb v = true -> (L0 <= r)%nat ->
   exists st' r',
-    chain_loop env c p st r = Ok (st', r', snd (chain_val env c p v)) /\
+    chain_loop_w mm env c p st r = Ok (st', r', snd (chain_val env c p v)) /\
     nth_error st' r' = Some (fst (chain_val env c p v)) /\
     path_wfb (fst (chain_val env c p v)) = true /\ (L0 <= r')%nat /\ frame L0 st st'.
 Proof.
   unfold chain_val. induction c as [| f c IH]; intros st r v Hn Hw HL.
   - simpl. exists st, r. repeat split; auto.
-  - cbn [chain_loop seq_ref].
+  - cbn [chain_loop_w seq_ref].
     destruct (filter_sim L0 env p f st r v Hn Hw HL) as [st1 [r1 [E [Hn1 [Hw1 [HL1 Hf1]]]]]].
     rewrite E. cbn [ar_term ar_path ar_reject]. destruct (filter_val env p f v) as [v1 vd]. cbn [fst snd] in *.
     destruct vd; cbn [term_of rej_of].
@@ -161,12 +164,12 @@ Qed.
 Theorem process_val env c p st r v :
   nth_error st r = Some v -> path_wfb v = true ->
   exists st' r',
-    process env c p st r = Ok (st', r', snd (chain_val env c p v)) /\
+    process_w mm env c p st r = Ok (st', r', snd (chain_val env c p v)) /\
     nth_error st' r' = Some (fst (chain_val env c p v)) /\
     (length st <= r')%nat /\
     (forall k, (k < length st)%nat -> nth_error st' k = nth_error st k).
 Proof.
-  intros Hn Hw. unfold process, alloc. rewrite Hn.
+  intros Hn Hw. unfold process_w, alloc. rewrite Hn.
   destruct (chain_loop_sim (length st) env p c (st ++ [v]) (length st) v
               (nth_error_app_last st v) Hw (le_n _)) as [st' [r' [E [Hn' [_ [HL [_ Hf]]]]]]].
   exists st', r'. repeat split; auto.
@@ -183,13 +186,15 @@ Proof.
   destruct v; auto; apply IH; intros y Hy; apply H; right; exact Hy.
 Qed.
 
+Hypothesis Hmm : mm_ok mm.
+
 Lemma term_val_ref env p t a :
   forallb (cond_wfb env) (t_from t) = true -> prefix_wfb p = true ->
   term_val env p t a = term_ref env p t a.
 Proof.
   intros Wt Wp. unfold term_val, term_ref, applies_m. rewrite part_any.
   rewrite (part_ext_in _ (fun c => cond_ref env c p a)); [reflexivity |].
-  intros c Hc. apply cond_ok; auto. apply (forallb_In _ _ _ Wt Hc).
+  intros c Hc. apply cond_ok_w; auto. apply (forallb_In _ _ _ Wt Hc).
 Qed.
 
 Theorem chain_val_ref env c p a :
@@ -203,6 +208,21 @@ Proof.
     unfold chain_wfb in Wc. apply (forallb_In _ _ _ (forallb_In _ _ _ Wc Hf) Ht).
 Qed.
 
+(* the reference-interpreter statement for the engine instantiated with mm *)
+Theorem process_ref_w env c p st r v :
+  chain_wfb env c = true -> prefix_wfb p = true -> path_wfb v = true ->
+  nth_error st r = Some v ->
+  exists st' r',
+    process_w mm env c p st r = Ok (st', r', snd (chain_ref env c p v)) /\
+    nth_error st' r' = Some (fst (chain_ref env c p v)) /\
+    (length st <= r')%nat /\
+    (forall k, (k < length st)%nat -> nth_error st' k = nth_error st k).
+Proof.
+  intros Wc Wp Wv Hn. rewrite <- (chain_val_ref env c p v Wc Wp). apply process_val; auto.
+Qed.
+
+End WithMatcher.
+
 (* ------------------------------------------------------------------ the C14 statements *)
 
 Theorem process_ref env c p st r v :
@@ -213,12 +233,11 @@ Theorem process_ref env c p st r v :
     nth_error st' r' = Some (fst (chain_ref env c p v)) /\
     (length st <= r')%nat /\
     (forall k, (k < length st)%nat -> nth_error st' k = nth_error st k).
-Proof.
-  intros Wc Wp Wv Hn. rewrite <- (chain_val_ref env c p v Wc Wp). apply process_val; auto.
-Qed.
+Proof. apply process_ref_w. exact matcher_match_ok. Qed.
 
 Theorem no_panic env c p st r v :
   path_wfb v = true -> nth_error st r = Some v -> process env c p st r <> Panic.
 Proof.
-  intros Wv Hn. destruct (process_val env c p st r v Hn Wv) as [st' [r' [E _]]]. rewrite E. discriminate.
+  intros Wv Hn. destruct (process_val matcher_match env c p st r v Hn Wv) as [st' [r' [E _]]].
+  unfold process. rewrite E. discriminate.
 Qed.
